@@ -290,7 +290,13 @@ func (s Segment) Backup(targetDir string) error {
 		return fmt.Errorf("backup index rel: %w", err)
 	}
 	targetIndex := filepath.Join(targetDir, indexName)
-	if err := copyFile(s.Index, targetIndex); err != nil {
+	if _, err := os.Stat(s.Index); errors.Is(err, os.ErrNotExist) {
+		// the index is derived data, (re)built on first use, and might not be there yet:
+		// the backup rebuilds it the same way, just make sure it does not keep an older copy
+		if err := os.Remove(targetIndex); err != nil && !errors.Is(err, os.ErrNotExist) {
+			return fmt.Errorf("backup index remove: %w", err)
+		}
+	} else if err := copyFile(s.Index, targetIndex); err != nil {
 		return fmt.Errorf("backup index copy: %w", err)
 	}
 
